@@ -107,7 +107,7 @@ Qed.
 (* ================================================================== *)
 
 Ltac msetters :=
-  cbn [mem set_k set_u set_cbuf set_ubuf set_dis_cmd set_dis_grp set_fault set_gL set_gS set_gR
+  cbn [mem set_k set_u set_cbuf set_ubuf set_mem set_dis_cmd set_dis_grp set_fault set_gL set_gS set_gR
        setk_index setk_partial setk_length setk_position setk_write_size setk_cmd setk_var
        setk_type setk_char setk_state setk_cr setk_hold setk_hold_exit setk_wbuf setk_wstate
        setk_wafter setk_implicit
@@ -270,4 +270,453 @@ Lemma mem_apply_edit : forall f e s, mem (apply_edit f e s) = mem s.
 Proof. intros f e s. unfold apply_edit. mgo. Qed.
 Lemma mem_pca_body : forall D ch s, mem (pca_body D ch s) = mem s.
 Proof. intros D ch s. unfold pca_body. mgo. Qed.
+#[export] Hint Rewrite mem_format_test_args mem_check_unsolicited_buffers mem_apply_edit mem_pca_body : memdb.
 
+
+(* ================================================================== *)
+(* Part 2 — availability                                                *)
+(* ================================================================== *)
+
+Lemma upd_length : forall (A : Type) (l : list A) i v, length (upd l i v) = length l.
+Proof.
+  intros A l. induction l as [|x l IH]; intros [|i] v; cbn [upd length]; try reflexivity.
+  rewrite IH. reflexivity.
+Qed.
+
+Lemma cur_store_len : forall c i v, length (cu_buf (cur_store c i v)) = length (cu_buf c).
+Proof.
+  intros c i v. unfold cur_store. destruct (i <? length (cu_buf c)); cbn [cu_buf].
+  - apply upd_length.
+  - reflexivity.
+Qed.
+
+Lemma cur_store_list_len : forall l c i,
+  length (cu_buf (cur_store_list c i l)) = length (cu_buf c).
+Proof.
+  induction l as [|x l IH]; intros c i; cbn [cur_store_list]; [reflexivity|].
+  rewrite IH. apply cur_store_len.
+Qed.
+
+Lemma print_nstring_len : forall c t,
+  length (cu_buf (fst (print_nstring c t))) = length (cu_buf c).
+Proof.
+  intros c t. unfold print_nstring.
+  destruct (length (cu_buf c) <? cu_pos c); [reflexivity|].
+  destruct (length (cu_buf c) - cu_pos c <=? length t); [reflexivity|].
+  cbn [fst]. rewrite cur_store_len. unfold cur_set_pos. cbn [cu_buf].
+  apply cur_store_list_len.
+Qed.
+
+Lemma print_string_len : forall s t,
+  length (cbuf (fst (print_string ATCMD s t))) = length (cbuf s).
+Proof.
+  intros s t. unfold print_string.
+  pose proof (print_nstring_len (get_cur ATCMD s) t) as H.
+  destruct (print_nstring (get_cur ATCMD s) t) as [c ok]. cbn [fst] in *.
+  unfold put_cur. destruct (cu_fault c); exact H.
+Qed.
+
+Lemma strncpy_error_head : forall n, 6 <= n ->
+  firstn 6 (strncpy_buf n txt_ERROR) = txt_ERROR ++ [0%N].
+Proof.
+  intros n H. destruct n as [|[|[|[|[|[|m]]]]]]; try lia. reflexivity.
+Qed.
+
+Lemma ack_error_spec : forall s0 s, length (cbuf s) = length (cbuf s0) -> mem s = mem s0 ->
+  6 <= length (cbuf s0) ->
+  k_state (k (ack_error s)) = CS_FLUSH_WAIT /\ k_wafter (k (ack_error s)) = CS_AFTER_RESET /\
+  mem (ack_error s) = mem s0 /\ firstn 6 (cbuf (ack_error s)) = txt_ERROR ++ [0%N].
+Proof.
+  intros s0 s Hl Hm H6. split; [reflexivity|]. split; [reflexivity|]. split.
+  - rewrite mem_ack_error. exact Hm.
+  - change (cbuf (ack_error s)) with (strncpy_buf (length (cbuf s)) txt_ERROR).
+    apply strncpy_error_head. rewrite Hl. exact H6.
+Qed.
+
+Theorem C08_read_unavailable : forall D s ci c,
+  g_cmd ATCMD s = Some ci -> cmd_at D ci = Some c ->
+  vars_access_possible c RO = false -> c_hread c = false -> 6 <= length (cbuf s) ->
+  let s' := start_processing_format_read_args D ATCMD s in
+  k_state (k s') = CS_FLUSH_WAIT /\ k_wafter (k s') = CS_AFTER_RESET /\ mem s' = mem s /\
+  firstn 6 (cbuf s') = txt_ERROR ++ [0%N].
+Proof.
+  intros D s ci c Hg Hc Hv Hr H6. cbv zeta. unfold start_processing_format_read_args. cbv zeta.
+  unfold cmd_of. change (g_cmd ATCMD (setg_pos ATCMD 0 s)) with (g_cmd ATCMD s).
+  rewrite Hg, Hc.
+  set (s0 := setg_pos ATCMD 0 s).
+  assert (L0 : length (cbuf s0) = length (cbuf s)) by reflexivity.
+  assert (M0 : mem s0 = mem s) by reflexivity.
+  pose proof (print_string_len s0 (c_name c)) as L1.
+  pose proof (mem_print_string ATCMD s0 (c_name c)) as M1.
+  destruct (print_string ATCMD s0 (c_name c)) as [s1 ok1]. cbn [fst] in L1, M1.
+  destruct ok1; cbn [negb].
+  - pose proof (print_string_len s1 [ch_EQ]) as L2.
+    pose proof (mem_print_string ATCMD s1 [ch_EQ]) as M2.
+    destruct (print_string ATCMD s1 [ch_EQ]) as [s2 ok2]. cbn [fst] in L2, M2.
+    destruct ok2; cbn [negb].
+    + rewrite Hv, Hr. cbn [negb]. unfold end_with_error.
+      apply ack_error_spec; [congruence | congruence | exact H6].
+    + unfold end_with_error. apply ack_error_spec; [congruence | congruence | exact H6].
+  - unfold end_with_error. apply ack_error_spec; [congruence | congruence | exact H6].
+Qed.
+
+Theorem C08_write_unavailable : forall D s c, cmd_of D ATCMD s = Some c -> c_only_test c = false ->
+  vars_access_possible c WO = false -> c_hwrite c = false ->
+  pca_body D ch_LF s = ack_error s.
+Proof.
+  intros D s c Hc Ht Hv Hw. unfold pca_body. rewrite Hc, Ht, Hv, Hw. reflexivity.
+Qed.
+
+(* ================================================================== *)
+(* Part 3 — every history                                               *)
+(* ================================================================== *)
+
+(* slot sl holds only read-only variables *)
+Definition ro_slot (D : desc) (sl : nat) : Prop :=
+  forall c v, In c (pool D) -> In v (c_vars c) -> v_slot v = sl -> v_access v = RO.
+
+Lemma nth_error_upd_neq : forall (A : Type) (l : list A) i j v, i <> j ->
+  nth_error (upd l i v) j = nth_error l j.
+Proof.
+  intros A l. induction l as [|x l IH]; intros [|i] [|j] v H; cbn [upd nth_error]; try reflexivity.
+  - exfalso. apply H. reflexivity.
+  - apply IH. intros E. apply H. rewrite E. reflexivity.
+Qed.
+
+Lemma upd_same : forall (A : Type) (l : list A) i v, nth_error l i = Some v -> upd l i v = l.
+Proof.
+  intros A l. induction l as [|x l IH]; intros [|i] v H; cbn [upd nth_error] in *;
+    try reflexivity.
+  - injection H as H. rewrite H. reflexivity.
+  - rewrite (IH i v H). reflexivity.
+Qed.
+
+Section History.
+Variable D : desc.
+Variables ioS muS hS : Type.
+Variable io_read : ioS -> ioS * option N.
+Variable io_write : ioS -> N -> ioS * bool.
+Variable mu_lock : muS -> muS * bool.
+Variable mu_unlock : muS -> muS * bool.
+Variable h_call : hS -> hreq -> hS * hres.
+
+Local Notation world := (Fsm.world ioS muS hS).
+Local Notation st := (Fsm.st ioS muS hS).
+Local Notation io := (Fsm.io ioS muS hS).
+Local Notation mu := (Fsm.mu ioS muS hS).
+Local Notation hs := (Fsm.hs ioS muS hS).
+Local Notation tr := (Fsm.tr ioS muS hS).
+Local Notation mkWorld := (Fsm.mkWorld ioS muS hS).
+Local Notation set_st := (Fsm.set_st ioS muS hS).
+Local Notation set_io := (Fsm.set_io ioS muS hS).
+Local Notation set_mu := (Fsm.set_mu ioS muS hS).
+Local Notation set_hs := (Fsm.set_hs ioS muS hS).
+Local Notation logw := (Fsm.logw ioS muS hS).
+Local Notation upd_st := (Fsm.upd_st ioS muS hS).
+Local Notation busy := (Fsm.busy ioS muS hS).
+Local Notation bracket := (Fsm.bracket D ioS muS hS mu_lock mu_unlock).
+Local Notation api_trigger := (Fsm.api_trigger D ioS muS hS mu_lock mu_unlock).
+Local Notation api_hold_exit := (Fsm.api_hold_exit D ioS muS hS mu_lock mu_unlock).
+Local Notation apply_icall := (Fsm.apply_icall D ioS muS hS mu_lock mu_unlock).
+Local Notation call_h := (Fsm.call_h D ioS muS hS mu_lock mu_unlock h_call).
+Local Notation read_cmd_char := (Fsm.read_cmd_char ioS muS hS io_read).
+Local Notation reading := (Fsm.reading ioS muS hS io_read).
+Local Notation parse_write_args := (Fsm.parse_write_args D ioS muS hS mu_lock mu_unlock h_call).
+Local Notation format_read_args := (Fsm.format_read_args D ioS muS hS mu_lock mu_unlock h_call).
+Local Notation process_write_loop := (Fsm.process_write_loop D ioS muS hS mu_lock mu_unlock h_call).
+Local Notation process_run_loop := (Fsm.process_run_loop D ioS muS hS mu_lock mu_unlock h_call).
+Local Notation process_rt_loop := (Fsm.process_rt_loop D ioS muS hS mu_lock mu_unlock h_call).
+Local Notation process_io_write := (Fsm.process_io_write ioS muS hS io_write).
+Local Notation unsolicited_process_io_write := (Fsm.unsolicited_process_io_write ioS muS hS io_write).
+Local Notation unsolicited_events_service :=
+  (Fsm.unsolicited_events_service D ioS muS hS io_write mu_lock mu_unlock h_call).
+Local Notation cmd_service :=
+  (Fsm.cmd_service D ioS muS hS io_read io_write mu_lock mu_unlock h_call).
+Local Notation service_body :=
+  (Fsm.service_body D ioS muS hS io_read io_write mu_lock mu_unlock h_call).
+Local Notation do_op := (Fsm.do_op D ioS muS hS io_read io_write mu_lock mu_unlock h_call).
+Local Notation step := (Fsm.step D ioS muS hS io_read io_write mu_lock mu_unlock h_call).
+Local Notation run := (Fsm.run D ioS muS hS io_read io_write mu_lock mu_unlock h_call).
+
+Section Inv.
+Variable sl : nat.
+Hypothesis Hro : ro_slot D sl.
+(* the application itself does not write that slot *)
+Hypothesis Hpoke : forall hs q, Forall (fun p => fst p <> sl) (r_pokes (snd (h_call hs q))).
+Variable r0 : option (list N).
+
+(* the invariant: slot sl holds what it held at the beginning *)
+Definition Keep (w : world) : Prop := nth_error (mem (st w)) sl = r0.
+
+Lemma I_set_io : forall w v, Keep w -> Keep (set_io v w).  Proof. intros w v H. exact H. Qed.
+Lemma I_set_mu : forall w v, Keep w -> Keep (set_mu v w).  Proof. intros w v H. exact H. Qed.
+Lemma I_set_hs : forall w v, Keep w -> Keep (set_hs v w).  Proof. intros w v H. exact H. Qed.
+Lemma I_logw : forall w e, Keep w -> Keep (logw e w).      Proof. intros w e H. exact H. Qed.
+Lemma I_set_st : forall w s, mem s = mem (st w) -> Keep w -> Keep (set_st s w).
+Proof. intros w s E H. unfold Keep in *. cbn [Fsm.st Fsm.set_st]. rewrite E. exact H. Qed.
+Lemma I_upd_st : forall w g, mem (g (st w)) = mem (st w) -> Keep w -> Keep (upd_st g w).
+Proof. intros w g E H. unfold Fsm.upd_st. apply I_set_st; assumption. Qed.
+
+Lemma I_bracket : forall w body, (forall w', Keep w' -> Keep (fst (body w'))) -> Keep w ->
+  Keep (fst (bracket w body)).
+Proof.
+  intros w body Hb H. unfold Fsm.bracket.
+  destruct (d_mutex D); [|apply Hb; exact H].
+  destruct (mu_lock (mu w)) as [m1 ok]. cbv zeta.
+  destruct ok; cbn [negb]; [|exact H].
+  assert (H1 : Keep (logw (ELock true) (set_mu m1 w))) by exact H.
+  apply Hb in H1. destruct (body (logw (ELock true) (set_mu m1 w))) as [w2 s]. cbn [fst] in H1.
+  destruct (mu_unlock (mu w2)) as [m2 ok2]. destruct ok2; exact H1.
+Qed.
+
+Lemma I_api_trigger : forall w ci t, Keep w -> Keep (fst (api_trigger w ci t)).
+Proof.
+  intros w ci t H. unfold Fsm.api_trigger. apply I_bracket; [|exact H].
+  intros w' H'. pose proof (mem_push_unsolicited_cmd D (st w') ci t) as E.
+  destruct (push_unsolicited_cmd D (st w') ci t) as [s' r]. cbn [fst] in *.
+  apply I_set_st; assumption.
+Qed.
+
+Lemma I_api_hold_exit : forall w z, Keep w -> Keep (fst (api_hold_exit w z)).
+Proof.
+  intros w z H. unfold Fsm.api_hold_exit. apply I_bracket; [|exact H].
+  intros w' H'. pose proof (mem_hold_exit (st w') z) as E.
+  destruct (hold_exit (st w') z) as [s' r]. cbn [fst] in *.
+  apply I_set_st; assumption.
+Qed.
+
+Lemma I_apply_icall : forall w c, Keep w -> Keep (apply_icall w c).
+Proof.
+  intros w c H. unfold Fsm.apply_icall. destruct c as [ci t | z].
+  - pose proof (I_api_trigger w ci t H) as H1.
+    destruct (api_trigger w ci t) as [w' r]. exact H1.
+  - pose proof (I_api_hold_exit w z H) as H1.
+    destruct (api_hold_exit w z) as [w' r]. exact H1.
+Qed.
+
+Lemma I_fold_icall : forall l w, Keep w -> Keep (fold_left apply_icall l w).
+Proof.
+  induction l as [|c l IH]; intros w H; cbn [fold_left]; [exact H|].
+  apply IH. apply I_apply_icall. exact H.
+Qed.
+
+Lemma apply_poke_other : forall s p, fst p <> sl ->
+  nth_error (mem (apply_poke s p)) sl = nth_error (mem s) sl.
+Proof.
+  intros s p Hp. unfold apply_poke.
+  destruct (nth_error (mem s) (fst p)); [|reflexivity].
+  destruct (store_prefix l (snd p)); [|reflexivity].
+  cbn [mem set_mem]. apply nth_error_upd_neq. exact Hp.
+Qed.
+
+Lemma fold_poke_other : forall l s, Forall (fun p => fst p <> sl) l ->
+  nth_error (mem (fold_left apply_poke l s)) sl = nth_error (mem s) sl.
+Proof.
+  induction l as [|p l IH]; intros s H; cbn [fold_left]; [reflexivity|].
+  inversion H as [|p' l' Hp Hl]; subst. rewrite (IH _ Hl). apply apply_poke_other. exact Hp.
+Qed.
+
+Lemma I_call_h : forall w q, Keep w -> Keep (fst (call_h w q)).
+Proof.
+  intros w q H. unfold Fsm.call_h.
+  pose proof (Hpoke (hs w) q) as P.
+  destruct (h_call (hs w) q) as [hs' r]. cbn [snd] in P. cbv zeta. cbn [fst].
+  apply I_fold_icall. unfold Fsm.upd_st, Keep. cbn [Fsm.st Fsm.set_st Fsm.logw Fsm.set_hs].
+  rewrite (fold_poke_other _ _ P). exact H.
+Qed.
+
+(* ---- the state functions ---- *)
+
+Ltac Icall :=
+  match goal with
+  | |- context [call_h ?w ?q] =>
+    let H := fresh "Hc" in
+    assert (H : Keep (fst (call_h w q)))
+      by (apply I_call_h; repeat first [assumption | apply I_upd_st; [mgo|] | apply I_set_st; [mgo|]]);
+    destruct (call_h w q) eqn:?; cbn [fst] in H
+  end.
+
+Ltac Imatch :=
+  match goal with
+  | |- Keep (fst (match (match ?x with _ => _ end) with _ => _ end)) => destruct x eqn:?
+  | |- Keep (fst (match ?x with _ => _ end)) => destruct x eqn:?
+  | |- Keep (match ?x with _ => _ end) => destruct x eqn:?
+  | |- Keep (fst (_, _)) => cbn [fst]
+  | |- Keep (fst (busy _)) => unfold Fsm.busy; cbn [fst]
+  end.
+
+Ltac Ibase :=
+  first [ assumption
+        | apply I_logw | apply I_set_io | apply I_set_mu | apply I_set_hs
+        | apply I_upd_st; [solve [mgo] |] ].
+
+Ltac Igo := repeat (cbv beta zeta; first [Icall | Imatch | Ibase]).
+
+Lemma I_read_cmd_char : forall w, Keep w -> Keep (fst (read_cmd_char w)).
+Proof.
+  intros w H. unfold Fsm.read_cmd_char. Igo.
+  apply I_set_st; [|Igo]. cbn [Fsm.st Fsm.logw Fsm.set_io]. mgo.
+Qed.
+
+Lemma I_reading : forall w body, (forall ch s, mem (body ch s) = mem s) -> Keep w ->
+  Keep (fst (reading w body)).
+Proof.
+  intros w body Hb H. unfold Fsm.reading.
+  pose proof (I_read_cmd_char w H) as R.
+  destruct (read_cmd_char w) as [w1 got]. cbn [fst] in R.
+  destruct got; cbn [negb]; [|exact R]. unfold Fsm.busy. cbn [fst].
+  apply I_upd_st; [apply Hb | exact R].
+Qed.
+
+Lemma store_ro : forall (s : state) c v data rest,
+  In c (pool D) -> In v (c_vars c) -> nth_error (mem s) (v_slot v) = Some data ->
+  nth_error (upd (mem s) (v_slot v) (snd (fst (fst (decode_var v rest data))))) sl =
+  nth_error (mem s) sl.
+Proof.
+  intros s c v data rest Hc Hv Hd.
+  destruct (Nat.eq_dec (v_slot v) sl) as [E|E].
+  - pose proof (C08_decode_readonly v rest data (Hro c v Hc Hv E)) as R.
+    destruct (decode_var v rest data) as [[[pst d] ws] n]. cbn [fst snd].
+    destruct R as [R _]. rewrite R. rewrite (upd_same _ _ _ _ Hd). reflexivity.
+  - apply nth_error_upd_neq. exact E.
+Qed.
+
+Lemma cmd_of_in_pool : forall f s c, cmd_of D f s = Some c -> In c (pool D).
+Proof.
+  intros f s c H. unfold cmd_of in H. destruct (g_cmd f s) as [ci|]; [|discriminate H].
+  unfold cmd_at in H. eapply nth_error_In. exact H.
+Qed.
+
+Lemma I_parse_write_args : forall w, Keep w -> Keep (fst (parse_write_args w)).
+Proof.
+  intros w H. unfold Fsm.parse_write_args. cbv zeta.
+  destruct (g_cmd ATCMD (st w)) as [ci|] eqn:Eg; [|Igo].
+  destruct (cmd_of D ATCMD (st w)) as [c|] eqn:Ec; [|Igo].
+  destruct (nth_error (c_vars c) (k_var (k (st w)))) as [v|] eqn:Ev; [|Igo].
+  destruct (nth_error (mem (st w)) (v_slot v)) as [data|] eqn:Ed; [|Igo].
+  pose proof (store_ro (st w) c v data (skipn (k_position (k (st w))) (cbuf (st w)))
+                (cmd_of_in_pool _ _ _ Ec) (nth_error_In _ _ Ev) Ed) as S.
+  destruct (decode_var v (skipn (k_position (k (st w))) (cbuf (st w))) data)
+    as [[[pst data'] wsz] n] eqn:Edv.
+  cbn [fst snd] in S.
+  assert (HI : forall s', mem s' = upd (mem (st w)) (v_slot v) data' -> Keep (set_st s' w)).
+  { intros s' E. unfold Keep. cbn [Fsm.st Fsm.set_st]. rewrite E, S. exact H. }
+  destruct pst as [| |comma].
+  - unfold Fsm.busy. cbn [fst]. apply HI. mgo.
+  - unfold Fsm.busy. cbn [fst]. apply HI. mgo.
+  - destruct (v_hwrite v).
+    + match goal with |- context [call_h ?w ?q] =>
+        assert (Hc : Keep (fst (call_h w q))) by (apply I_call_h; apply HI; mgo);
+        destruct (call_h w q) as [w' r]; cbn [fst] in Hc end.
+      Igo.
+    + assert (Hc : Keep (set_st (setk_write_size wsz
+               (set_mem (upd (mem (st w)) (v_slot v) data')
+                  (setk_position (k_position (k (st w)) + n) (st w)))) w)) by (apply HI; mgo).
+      Igo.
+Qed.
+
+Lemma I_format_read_args : forall f w, Keep w -> Keep (fst (format_read_args f w)).
+Proof. intros f w H. unfold Fsm.format_read_args. Igo. Qed.
+
+Lemma I_process_write_loop : forall w, Keep w -> Keep (fst (process_write_loop w)).
+Proof. intros w H. unfold Fsm.process_write_loop. Igo. Qed.
+
+Lemma I_process_run_loop : forall w, Keep w -> Keep (fst (process_run_loop w)).
+Proof. intros w H. unfold Fsm.process_run_loop. Igo. Qed.
+
+Lemma I_process_rt_loop : forall rd f w, Keep w -> Keep (fst (process_rt_loop rd f w)).
+Proof. intros rd f w H. unfold Fsm.process_rt_loop. Igo. Qed.
+
+Lemma I_process_io_write : forall w, Keep w -> Keep (fst (process_io_write w)).
+Proof. intros w H. unfold Fsm.process_io_write. Igo. Qed.
+
+Lemma I_unsolicited_process_io_write : forall w, Keep w -> Keep (fst (unsolicited_process_io_write w)).
+Proof. intros w H. unfold Fsm.unsolicited_process_io_write. Igo. Qed.
+
+Lemma I_unsolicited_events_service : forall w, Keep w -> Keep (fst (unsolicited_events_service w)).
+Proof.
+  intros w H. unfold Fsm.unsolicited_events_service.
+  destruct (u_state (u (st w)));
+    first [ apply I_format_read_args; exact H
+          | apply I_process_rt_loop; exact H
+          | apply I_unsolicited_process_io_write; exact H
+          | Igo ].
+Qed.
+
+Lemma I_cmd_service : forall w, Keep w -> Keep (fst (cmd_service w)).
+Proof.
+  intros w H. unfold Fsm.cmd_service.
+  destruct (k_state (k (st w)));
+    first [ apply I_parse_write_args; exact H
+          | apply I_format_read_args; exact H
+          | apply I_process_write_loop; exact H
+          | apply I_process_run_loop; exact H
+          | apply I_process_rt_loop; exact H
+          | apply I_process_io_write; exact H
+          | unfold Fsm.error_state, Fsm.process_idle_state, Fsm.parse_prefix, Fsm.parse_command,
+              Fsm.wait_read_acknowledge, Fsm.wait_test_acknowledge, Fsm.parse_command_args;
+            apply I_reading; [intros ch s; mgo | exact H]
+          | Igo ].
+Qed.
+
+Lemma I_service_body : forall w, Keep w -> Keep (fst (service_body w)).
+Proof.
+  intros w H. unfold Fsm.service_body.
+  pose proof (I_unsolicited_events_service w H) as U.
+  destruct (unsolicited_events_service w) as [w1 us]. cbn [fst] in U.
+  pose proof (I_cmd_service w1 U) as C.
+  destruct (cmd_service w1) as [w2 s]. cbn [fst] in C.
+  destruct (negb (us =? ST_OK)%Z || negb (ustate_beq (u_state (u (st w2))) US_IDLE)); exact C.
+Qed.
+
+Lemma I_do_op : forall w o, Keep w -> Keep (fst (do_op w o)).
+Proof.
+  intros w o H. destruct o; cbn [Fsm.do_op].
+  - unfold Fsm.api_service. apply I_bracket; [apply I_service_body | exact H].
+  - apply I_api_trigger. exact H.
+  - apply I_api_hold_exit. exact H.
+  - unfold Fsm.api_is_busy. apply I_bracket; [intros w' H'; exact H' | exact H].
+  - unfold Fsm.api_is_hold. apply I_bracket; [intros w' H'; exact H' | exact H].
+  - unfold Fsm.api_is_full. apply I_bracket; [intros w' H'; exact H' | exact H].
+  - exact H.
+  - exact H.
+  - cbn [fst]. apply I_upd_st; [reflexivity | exact H].
+  - cbn [fst]. apply I_upd_st; [reflexivity | exact H].
+Qed.
+
+Lemma I_step : forall w o, Keep w -> Keep (step w o).
+Proof.
+  intros w o H. unfold Fsm.step. pose proof (I_do_op w o H) as H1.
+  destruct (do_op w o) as [w' r]. exact H1.
+Qed.
+
+Lemma I_run : forall ops w, Keep w -> Keep (run w ops).
+Proof.
+  induction ops as [|o ops IH]; intros w H; [exact H|].
+  unfold Fsm.run. cbn [fold_left]. apply IH. apply I_step. exact H.
+Qed.
+
+End Inv.
+
+(* the storage of a slot that holds only read-only variables, and that the application's handlers
+   do not write themselves, is the same after ANY sequence of API calls, with ANY input and ANY
+   behaviour of the handlers *)
+Theorem C08_readonly_history : forall sl m x mx h ops,
+  ro_slot D sl ->
+  (forall hs q, Forall (fun p => fst p <> sl) (r_pokes (snd (h_call hs q)))) ->
+  nth_error (mem (st (run (mkWorld (init_state D m) x mx h []) ops))) sl = nth_error m sl.
+Proof.
+  intros sl m x mx h ops Hro Hpoke.
+  apply (I_run sl Hro Hpoke (nth_error m sl) ops). reflexivity.
+Qed.
+
+(* the same for every intermediate state: the invariant is inductive, from any state *)
+Theorem C08_readonly_step : forall sl w o,
+  ro_slot D sl ->
+  (forall hs q, Forall (fun p => fst p <> sl) (r_pokes (snd (h_call hs q)))) ->
+  nth_error (mem (st (step w o))) sl = nth_error (mem (st w)) sl.
+Proof.
+  intros sl w o Hro Hpoke.
+  apply (I_step sl Hro Hpoke (nth_error (mem (st w)) sl) w o). reflexivity.
+Qed.
+End History.
